@@ -551,5 +551,8 @@ def field_offsets(recipe):
         elif k == "lp":
             out += [(b + 2, 1, "lp.namelen"), (b + 3, 1, "lp.count")]
         elif k == "ed":
-            out += [(b, 1, "ed.creator")]
+            out += [(b, 1, "ed.creator"), (b + 4, 4, "ed.payload_head")]
+        elif k == "ud":
+            # the first bytes of a payload are where parser plugins keep their own counts / lengths
+            out += [(b, 4, "ud.payload_head")]
     return out
